@@ -108,7 +108,14 @@ def run_check(prop, tier, seed, keep=False):
     cases = []
     for fam in spec['families']:
         cs, st = families.generate(fam, tier, seed, os.path.join(work, 'gen-' + fam))
-        st['family'] = fam
+        st = dict(st, family=fam)
+        cap = families.FAMILIES[fam][tier].get('cap')
+        if cap and len(cs) > cap:
+            import random
+            rnd = random.Random(seed * 1000003 + len(cs))
+            cs = [cs[i] for i in sorted(rnd.sample(range(len(cs)), cap))]
+            st['sampled_to'] = cap
+            st['simulate'] = st.get('simulate') or {'sampled': cap}
         gen_stats.append(st)
         for i, c in enumerate(cs):
             cases.append(('%s-%05d' % (fam, i), c))
@@ -126,6 +133,7 @@ def run_check(prop, tier, seed, keep=False):
     kf = findings.load()
     violations, known = [], collections.OrderedDict()
     other_props = collections.Counter()
+    by_class = collections.Counter()
     tr_by_id = {t['id']: t for t in traces}
     for fr in fails:
         tr = tr_by_id[fr['id']]
@@ -143,6 +151,7 @@ def run_check(prop, tier, seed, keep=False):
                 known[ent['id']][1] += 1
             else:
                 violations.append((fr['id'], fr['step'], clause))
+                by_class['%s|%s|%s' % (clause, ','.join(meta['naming']['classes']), fr['id'].split('-')[2])] += 1
     replay_paths = []
     if violations:
         rdir = os.path.join(VERIF, 'replays', prop)
@@ -194,6 +203,7 @@ def run_check(prop, tier, seed, keep=False):
             'detail': cov.get('detail', {}),
             'clauses_failing_known': {e['id']: c for e, c in known.values()},
             'clauses_failing_new': dict(clause_counts),
+            'clauses_failing_new_by_class_family': dict(by_class),
             'other_property_clause_failures_seen': dict(other_props),
             'checker_cmd': 'tlc FMTrace.tla (TSpec, POSTCONDITION AllConsumed) over traces recorded by harness/scripts.py',
             'trusted_base': ['TLC 1.8 / SANY / CommunityModules Json', 'harness/project.py (abstraction function)',
